@@ -18,7 +18,11 @@ _TRUSTED = ["SHA-256 modelled as injective: hash locks and contract ids are iden
             "SDK bank keeper modelled as a ledger (send / mint / burn, blocked recipients); its agreement is observed "
             "at every step (all balances of the universe, bank supply of the asset denoms)"]
 
-_ASSUME = ["asset parameters do not change inside a history (MsgUpdateParams is not part of the histories)",
+_ASSUME = ["theorem hypotheses (visible in Props/C03.v, Props/C04.v): params_ok (asset limits are not negative), "
+           "escrow_empty (the htlc module account holds nothing at genesis), wf_op (a create message is not signed by a "
+           "module account and does not name the htlc module account itself as recipient - that is a donation to escrow; "
+           "the generator never produces such messages)",
+           "asset parameters do not change inside a history (MsgUpdateParams is not part of the histories)",
            "nobody sends coins to the htlc module account outside the module's messages (donations)",
            "amounts stay below 2^256 (sdkmath.Int overflow is not modelled); time.Duration does not overflow"]
 
